@@ -1,6 +1,6 @@
 (** C16 — ordered buffering exerts backpressure: at most n items pulled but not yielded *)
 From FB Require Import Base Syntax World SlotMap Fub Ordered Adapters Step
-  WorldProofs FubProofs UnboundedProofs AdaptersProofs StepProofs Reach.
+  WorldProofs FubProofs UnboundedProofs AdaptersProofs StepProofs Reach LedgerProofs TokenLedger UpstreamLedger BackpressureLog.
 
 (** in every reachable state of every history of buffered_ordered / try_buffered_ordered (and
     the unordered ones): running futures + finished outputs waiting for an earlier one <= n *)
@@ -20,3 +20,18 @@ Theorem C16_poll_keeps_bound :
   /\ q_cap (ad_q a') = q_cap (ad_q a) /\ ad_try a' = ad_try a.
 Proof. exact adapter_poll_spec. Qed.
 Print Assumptions C16_poll_keeps_bound.
+
+(** at every moment of every history (not only between operations): in the chronological event
+    log of any history of the four buffered adapters, whenever an item is pulled from upstream
+    ([EUpPoll (UAItem c)]), the items pulled before it exceed the items handed to the caller
+    before it by less than the limit [n = p_cap p]: a pull happens only while fewer than n
+    items are pulled-but-unyielded (running futures + parked outputs); n = 0 never pulls *)
+Theorem C16_pulls_only_below_the_limit :
+  forall (P : params), params_ok P ->
+  forall (ty : ctype) (p : cparams) (inits : list (N * script)) (ups : list upstep) (rest : list op)
+         (pre : list event) (c : N) (post : list event),
+  ad_ctype ty = true ->
+  hist_of P (OBuild ty p inits ups :: rest) = pre ++ EUpPoll (UAItem c) :: post ->
+  npull pre < p_cap p + nyield pre.
+Proof. exact pulls_only_below_the_limit. Qed.
+Print Assumptions C16_pulls_only_below_the_limit.
